@@ -35,6 +35,8 @@ RULE += (" " + 'Pipelines are also scoped to a log source that matches all or no
 RULE += (" Referenced rules and the correlation rule carry optional fields lists; with a fields expression configured the fields slot must list them in reference order, de-duplicated, without group-by fields, after field mapping.")
 RULE += (" A third of the cases selects a non-default correlation method whose templates are the unmarked ones (every template of the default method carries a marker).")
 RULE += (" Aliases also occur without group-by (normalisation only).")
+RULE += (" Rule names also begin with the letters of an operator keyword (notable, not_r, android, or_x, order).")
+RULE += (" Correlation rules carry up to two aliases, also named like fields the pipeline renames, in both key orders.")
 ASSUMPTIONS = [
     "solo queries of referenced rules are computed by the same backend class on fresh objects (isolation, not semantics)",
     "the unit lengths s/m/h/d/w/M/y = 1/60/3600/86400/604800/2629746/31556952 seconds",
@@ -320,7 +322,7 @@ def cases(draw):
         if byid:
             d["id"] = UUIDS[i]
         else:
-            d["name"] = f"r{i}"
+            d["name"] = draw(st.sampled_from([f"r{i}", f"r{i}", f"notable{i}", f"not_r{i}", f"android{i}", f"or_x{i}", f"nothing{i}", f"order{i}"]))
             if draw(st.booleans()):
                 d["id"] = UUIDS[i]
         rules.append(d)
@@ -330,15 +332,22 @@ def cases(draw):
     ctype = draw(st.sampled_from(["event_count", "value_count", "temporal", "temporal_ordered", "value_sum", "value_avg", "value_percentile", "value_median"]))
     c = {"type": ctype, "rules": refs, "timespan": str(draw(st.sampled_from([1, 5, 90]))) + draw(st.sampled_from(list(UNIT)))}
     if draw(st.booleans()):
-        c["group-by"] = draw(st.sampled_from([["user"], "user", ["user", "fa"], ["al", "user"], ["other"]]))
+        c["group-by"] = draw(st.sampled_from([["user"], "user", ["user", "fa"], ["al", "user"], ["other"], ["al", "fa", "account"], ["user", "al", "cnt"]]))
         if "al" in c["group-by"]:
             c["aliases"] = {"al": {r: draw(st.sampled_from(["user", "account", "x"])) for r in refs}}
+            if len(c["group-by"]) == 3:
+                # further aliases whose names are spelled like fields the pipeline renames: alias names are never renamed
+                for extra in c["group-by"][:2] if c["group-by"][0] != "al" else c["group-by"][1:2]:
+                    if extra != "al":
+                        c["aliases"][extra] = {r: draw(st.sampled_from(["user", "other", "cnt"])) for r in refs}
+                if draw(st.booleans()):  # key order inside the aliases map
+                    c["aliases"] = dict(reversed(list(c["aliases"].items())))
     if "group-by" not in c and draw(st.integers(0, 2)) == 0:  # aliases without grouping: normalisation only
         c["aliases"] = {"al": {r: draw(st.sampled_from(["user", "account", "x"])) for r in refs}}
     if draw(st.booleans()):
         c["generate"] = draw(st.booleans())
     op = draw(st.sampled_from(list(OPS)))
-    named = [r for r in refs if r.startswith("r")]
+    named = [r for r in refs if r not in UUIDS]
     if ctype in ("temporal", "temporal_ordered"):
         choice = draw(st.integers(0, 3))
         if choice == 1:
